@@ -13,6 +13,7 @@ import (
 	"path/filepath"
 	"regexp"
 	"sort"
+	"strconv"
 	"strings"
 	"sync"
 	"time"
@@ -349,6 +350,9 @@ func (s *Supervisor) Search(budget time.Duration) *Outcome {
 	deadline := start.Add(budget)
 	hardDeadline := start.Add(budget*3 + 60*time.Second)
 	to := time.Duration(s.Prop.RunTimeoutSeconds) * time.Second
+	if v, err := strconv.Atoi(os.Getenv("VERIF_WATCHDOG_SECONDS")); err == nil && v > 0 {
+		to = time.Duration(v) * time.Second // debugging aid, never set by a registered command
+	}
 	if to == 0 {
 		to = 120 * time.Second
 	}
